@@ -75,9 +75,11 @@ def run(ctx: Ctx, rep: Report) -> None:
 
     construct_fn = ctx.fn(CONSTRUCT)
     site = fn.site()
-    for status in (-1, 1, 5, 19, 255):
-        for index in (-1, 0, 1, 2, 3):
-            for length in (0, 1, 2):
+    deep = rep.tier == "thorough"
+    statuses = tuple(s for s in range(-3, 24) if s != 0) + (127, 128, 255, 256, 2**31 - 1, -(2**31)) if deep else (-1, 1, 5, 19, 255)
+    for status in statuses:
+        for index in (tuple(range(-4, 9)) if deep else (-1, 0, 1, 2, 3)):
+            for length in (tuple(range(0, 7)) if deep else (0, 1, 2)):
                 env, atom = scenario(status, index, length)
                 outs = simulate(cfg, env)
                 bad = []
